@@ -364,6 +364,31 @@ fn mutated(ctx: &mut Ctx) {
     run_attack_side(ctx, kind, 1, s, "mutated valid stream".into(), close_after, connecting);
 }
 
+
+/// READY commands whose property names / values are edge cases of the property grammar
+const PROP_NAMES: [&[u8]; 18] = [b"", b"-", b"X-", b"-Type", b"Socket--Type", b"socket-type", b"SOCKET-TYPE", b"Identity", b"identity", b"X-\xc3\xa9", b"\xc3\xa9a", b"a", b"Resource", b"X- ", b"X\0Y", b"Socket-Type", b"\xff\xfe", b"--"];
+fn prop_names(ctx: &mut Ctx) {
+    let kind = ALL_KINDS[(ctx.idx % 9) as usize];
+    let name = PROP_NAMES[((ctx.idx / 9) % PROP_NAMES.len() as u64) as usize];
+    let stage = 1 + (ctx.idx / (9 * PROP_NAMES.len() as u64)) % 2; // in the handshake READY / in a later READY
+    let vlen = [0usize, 1, 3, 255, 256][((ctx.idx / (18 * PROP_NAMES.len() as u64)) % 5) as usize];
+    let connecting = (ctx.idx / (90 * PROP_NAMES.len() as u64)) % 2 == 1;
+    if ctx.idx < 180 * PROP_NAMES.len() as u64 {
+        world::plain(ctx);
+    } else {
+        world::swarm(ctx, SwarmOpts::default());
+    }
+    let value: Vec<u8> = (0..vlen).map(|i| b'A' + (i % 26) as u8).collect();
+    let peer_type = kind.peers()[0];
+    // the odd property sits next to a proper Socket-Type (before or after it)
+    let st: (&[u8], &[u8]) = (b"Socket-Type", peer_type.as_bytes());
+    let odd: (&[u8], &[u8]) = (name, &value);
+    let bytes = if ctx.idx % 2 == 0 { rc::ready(&[st, odd]) } else { rc::ready(&[odd, st]) };
+    ctx.out.extra_shape = ctx.idx % (180 * PROP_NAMES.len() as u64);
+    let what = format!("READY with a property named {:?} ({} value bytes)", String::from_utf8_lossy(name), vlen);
+    run_attack_side(ctx, kind, stage, bytes, what, ctx.idx % 3 == 0, connecting);
+}
+
 pub fn def() -> PropDef {
     PropDef {
         id: "C03",
@@ -373,6 +398,7 @@ pub fn def() -> PropDef {
         strata: vec![
             Stratum { name: "catalogue", quick: 27 * NATTACKS * 8, thorough: (27 * NATTACKS * 200) * 10, exhaustive: (true, true), run: catalogue, what: "kind x stage x attack catalogue" },
             Stratum { name: "alphabet", quick: 30_000, thorough: NALPHA * 2 * 2, exhaustive: (false, true), run: alphabet, what: "all strings <= 5 over a reduced alphabet of flag/length/command bytes" },
+            Stratum { name: "prop_names", quick: 180 * 18 * 3, thorough: 180 * 18 * 60, exhaustive: (true, true), run: prop_names, what: "READY property names and values at the edges of the grammar x stage x side x socket type" },
             Stratum { name: "mutated", quick: 100_000, thorough: (1_500_000) * 8, exhaustive: (false, false), run: mutated, what: "random mutations of valid streams" },
         ],
     }
